@@ -17,6 +17,7 @@ from ..engine import emit, rx
 from ..engine import pattern as P
 from ..engine.facts import dotted, const, src, walk_func, str_value
 from . import skeletons as sk
+from .common import pn
 from .c13 import check_skeleton, loop_construct_traces, _T
 
 PRIMARY = ["if", "for", "while", "try", "with"]
@@ -54,7 +55,7 @@ def keyword_tables(ctx):
     pf = db.func("ast.PythonFragment.__init__")
     handled = set()
     for n in walk_func(pf):
-        if isinstance(n, ast.Compare) and src(n.left) == "keyword":
+        if isinstance(n, ast.Compare) and isinstance(n.left, ast.Name):
             c = n.comparators[0]
             if isinstance(c, ast.Constant):
                 handled.add(c.value)
@@ -134,11 +135,10 @@ def skeletons(ctx):
     for s in S.build("visitCode"):
         ctx.check(s.tree is not None and s.res.final_indent == 0 and not s.res.error, "block[%s]" % s.flagtag(), "mako/codegen.py (visitCode)", "code block emission ill-formed:\n" + s.source, "block placed at the current level")
     wb = db.func("pygen.PythonPrinter.write_indented_block")
-    t = src(wb)
-    ctx.check("self.line_buffer.append" in t and "in_indent_lines = False" in t, "block.buffered", db.where(wb), "write_indented_block no longer buffers the block for re-margining", "block lines buffered, re-margined at flush")
+    ctx.check(P.has(wb, "self.in_indent_lines = False") and P.has(wb, "for ($i, $l) in enumerate(re.split($rx, %s)):\n    self.line_buffer.append($l)\n    ..." % pn(wb, 1)), "block.buffered", db.where(wb), "write_indented_block no longer buffers the block for re-margining", "block lines buffered, re-margined at flush")
     fl = db.func("pygen.PythonPrinter._flush_adjusted_lines")
-    t = src(fl)
-    ctx.check("self._indent_line(entry, stripspace)" in t and "self._in_multi_line(entry)" in t, "block.remargin", db.where(fl), "_flush_adjusted_lines does not strip the block's own margin and apply the current indentation", "margin of first code line stripped, current indent applied, multi-line strings untouched")
+    ok = P.has(fl, "for $e in self.line_buffer:\n    if self._in_multi_line($e):\n        ...\n    else:\n        ...\n        self.stream.write(self._indent_line($e, $s) + '\\n')")
+    ctx.check(ok, "block.remargin", db.where(fl), "_flush_adjusted_lines does not strip the block's own margin and apply the current indentation", "margin of first code line stripped, current indent applied, multi-line strings untouched")
 
 
 @rule("C03.loop-pairing", min_instances=6)
@@ -195,9 +195,13 @@ def loop_pairing(ctx):
     sets = [n for n in walk_func(mm) if isinstance(n, ast.Assign) and src(n.targets[0]).endswith("has_loop_context")]
     ctx.check(bool(sets) and src(sets[0].targets[0]) == "node.nodes[-1].has_loop_context", "flag.target", db.where(sets[0]) if sets else db.where(mm), "has_loop_context is not stored on the for line's last child (its end line)", "node.nodes[-1].has_loop_context = True")
     an = db.func("lexer.Lexer.append_node")
-    t = src(an)
-    i1, i2 = t.find("control_frame.nodes.append(node)"), t.find("self.control_line.pop()")
-    ctx.check(0 <= i1 < i2, "flag.end-node-is-last-child", db.where(an), "the end control line is no longer appended to its own frame's children before the frame is popped: nodes[-1] would not be the end line", "end line appended to its frame before the frame is popped")
+    nodevars = {s.targets[0].id for s in walk_func(an) if isinstance(s, ast.Assign) and isinstance(s.targets[0], ast.Name) and isinstance(s.value, ast.Call) and dotted(s.value.func) == pn(an, 1)}
+    frames = {s.targets[0].id for s in walk_func(an) if isinstance(s, ast.Assign) and isinstance(s.targets[0], ast.Name) and src(s.value) == "self.control_line[-1]"}
+    apps = [c for c in walk_func(an) if isinstance(c, ast.Call) and isinstance(c.func, ast.Attribute) and c.func.attr == "append" and isinstance(c.func.value, ast.Attribute) and c.func.value.attr == "nodes"
+            and (src(c.func.value.value) == "self.control_line[-1]" or src(c.func.value.value) in frames) and len(c.args) == 1 and src(c.args[0]) in nodevars]
+    pops = [c for c in walk_func(an) if isinstance(c, ast.Call) and dotted(c.func) == "self.control_line.pop"]
+    ok = bool(apps) and bool(pops) and apps[0].lineno < min(p_.lineno for p_ in pops)
+    ctx.check(ok, "flag.end-node-is-last-child", db.where(an), "the end control line is no longer appended to its own frame's children before the frame is popped: nodes[-1] would not be the end line", "end line appended to its frame before the frame is popped")
 
 
 @rule("C03.enable-loop-guard", min_instances=5)
